@@ -18,6 +18,7 @@ UNIT_MAP = {
     'frames': ['closure_capture'],
     'gc_roots': ['gc_roots'],
     'host_values': ['gc_roots'],
+    'stdlib_natives': ['native_keys'],
     'names': ['name_resolution'],
     'error_trace': ['error_trace'],
     'emission': ['decode_walk'],
@@ -28,11 +29,13 @@ UNIT_MAP = {
     'imports': ['name_resolution'],
     'modules': ['name_resolution'],
     'resolve': ['name_resolution'],
+    'serde_hash_map': ['serde_roundtrip'],
+    'serde_handle_table': ['serde_roundtrip'],
 }
 # (driver cyclic_table is deliberately absent: it replays the open C04 findings only -- on the pinned tree it always fails,
 # so a search with it would attach the known input to an unrelated violation)
 # drivers whose target may crash the process: the search leaves the current input in a file
-CRASH_PRONE = {'decode_walk', 'gc_roots'}
+CRASH_PRONE = {'decode_walk', 'gc_roots', 'native_keys'}
 _built = {}
 
 def build(repo, scratch):
